@@ -181,6 +181,22 @@ def run(ctx):
             same_ast = a[0] == "ok" and b[0] == "ok" and json.dumps(canon_rules(strip_comments(json.loads(a[1][2:]))), sort_keys=True) == json.dumps(canon_rules(strip_comments(json.loads(b[1][2:]))), sort_keys=True)
             if not same_ast and len(ctx.violations) < 40:
                 ctx.report("corpus case: re-spelling changes Check/AST: %r -> %s, %r -> %s" % (pr["base"], a[0], pr["respelled"], b[0]), "c13corpus:" + pr["respelled"], dict(pr, results=[a[0], b[0]]), case={"schema": pr["respelled"]})
+    # document keys matched by a key shortcut: an escaped spelling of the key is the same key
+    ks = []
+    for kt in ('"k"', '"key" // {minLength: 1, maxLength: 3}', '"k" // {regex: "^k"}', '"k" // {enum: ["k", "key"]}', '"k" // {const: true}'):
+        for key in ("k", "key", "kx", "z"):
+            esc = "".join("\\u%04x" % ord(ch) for ch in key)
+            half = "\\u%04x" % ord(key[0]) + key[1:]
+            ks.append((kt, ['{"%s": 1}' % key, '{"%s": 1}' % esc, '{"%s": 1}' % half, '{ "%s" : 1 }' % esc]))
+    kouts = vc.impl(["schema"], [json.dumps({"schema": "{\n  @K: 1\n}", "types": [["@K", kt]], "ops": [["check"]] + [["validate", d] for d in docs]}) for kt, docs in ks])
+    for (kt, docs), o in zip(ks, kouts):
+        r = json.loads(o)
+        ctx.evaluations += len(docs)
+        vs = [x.split("@")[0] for x in r[1:]]
+        if r[0] == "ok" and len(set(vs)) > 1 and len(ctx.violations) < 40:
+            info = {"schema": "{\n  @K: 1\n}", "types": [["@K", kt]], "documents": docs, "verdicts": r[1:]}
+            ctx.report("re-spelling a document key with escapes changes the verdict under the key shortcut @K = %s: %s" % (kt, list(zip(docs, r[1:]))[:4]), "c13key:" + kt + docs[0], info, case=info)
+    ctx.extra["key_shortcut_respellings"] = len(ks)
     # rule order inside the rule-sets of an "or" rule (a second loader handles them)
     import itertools
     sets = {"A": [("type", '"integer"'), ("min", "0"), ("exclusiveMinimum", "true")], "B": [("type", '"string"'), ("minLength", "1"), ("maxLength", "9")],
